@@ -180,6 +180,8 @@ class Cache:
             res.limit = 0
             res.group_by = set()
             res.is_summarized = False
+            # the predicates of the right side of an inner join end up in the WHERE clause, too
+            res.is_filtered = self.is_filtered or (node.how == "inner" and right_cache.is_filtered)
 
         elif isinstance(node, verbs.Union):
             assert right_cache is not None
